@@ -37,7 +37,7 @@ def run_cli(cmd, text, timeout):
 
 def check(hyps, goal, timeout_ms=10000, want_model=True, second=False):
     """-> dict(result='unsat'|'sat'|'unknown', model, seconds, backend, second=...)"""
-    q = list(hyps) + [z3.Not(goal)]
+    q = [z3.simplify(x) for x in list(hyps) + [z3.Not(goal)]]
     q = q + ground_axioms(q)
     s = z3.Solver()
     s.set('timeout', timeout_ms)
